@@ -49,8 +49,19 @@ class Path(Expression):
         return isinstance(other, Path) and self.path == other.path
 
     def __str__(self) -> str:
+        def _quoted(segment: str) -> str:
+            # Quoted segments have no escape sequences. Use whichever quote does
+            # not appear in the segment.
+            quote = '"' if "'" in segment else "'"
+            return f"[{quote}{segment}{quote}]"
+
         it = iter(self.path)
-        buf = [str(next(it))]
+        root = next(it)
+        if isinstance(root, str):
+            buf = [root if RE_PROPERTY.fullmatch(root) else _quoted(root)]
+        else:
+            buf = [f"[{root}]"]
+
         for segment in it:
             if isinstance(segment, Path):
                 buf.append(f"[{segment}]")
@@ -58,7 +69,7 @@ class Path(Expression):
                 if RE_PROPERTY.fullmatch(segment):
                     buf.append(f".{segment}")
                 else:
-                    buf.append(f"[{segment!r}]")
+                    buf.append(_quoted(segment))
             else:
                 buf.append(f"[{segment}]")
         return "".join(buf)
